@@ -145,11 +145,11 @@ package godi
 //@ func provider.trackDisposable
 //@   mode conc
 //@   safety[C15,C09]
-//@   requires recv: p != nil
+//@   requires recv: p != nil && d != nil
 //@   ghost pre []Disposable
 //@   at after call p.disposablesMu.Lock#1 : ghost pre := p.disposables
 //@   ensures[C10] tracked_once: ncalls("provider.disposablesMu.Lock") == 1 && ncalls("provider.singletons.Store") == 0
-//@   at before call p.disposablesMu.Unlock#1 : assert[C10,C11] appended_last: len(p.disposables) == len(pre) + 1 && p.disposables[len(pre)] == box(d)
+//@   at before call p.disposablesMu.Unlock#1 : assert[C10,C11] appended_last: len(p.disposables) == len(pre) + 1 && p.disposables[len(pre)] == d
 //@        && (forall i int :: 0 <= i && i < len(pre) ==> p.disposables[i] == pre[i])
 //
 //@ func scope.trackOnly
@@ -164,7 +164,7 @@ package godi
 //@   at before call s.disposablesMu.Unlock#1 : ghost wasLate := late
 //@   ensures[C10] not_disposable_untracked: !typeis(instance, "Disposable") ==> ncalls("scope.disposablesMu.Lock") == 0 && ncalls("provider.trackDisposable") == 0 && ncalls("closeLate") == 0
 //@   ensures[C10] singleton_output_owned_by_provider: typeis(instance, "Disposable") && lifetime == Singleton ==> ncalls("provider.trackDisposable") == 1 && callarg("provider.trackDisposable", 0, 0) == old(s.rootProvider)
-//@        && box(callarg("provider.trackDisposable", 0, 1)) == instance && ncalls("scope.disposablesMu.Lock") == 0
+//@        && callarg("provider.trackDisposable", 0, 1) == instance && ncalls("scope.disposablesMu.Lock") == 0
 //@   ensures[C10] other_output_owned_by_scope: typeis(instance, "Disposable") && lifetime != Singleton ==> ncalls("provider.trackDisposable") == 0 && ncalls("scope.disposablesMu.Lock") == 1
 //@        && ncalls("closeLate") == ite(wasLate, 1, 0) && (wasLate ==> callarg("closeLate", 0, 0) == instance)
 //@   ensures[C01,C02] stores_nothing: ncalls("scope.instancesMu.Lock") == 0 && ncalls("provider.setSingleton") == 0 && ncalls("provider.cacheSingleton") == 0
